@@ -32,7 +32,7 @@ def handleLocs (l r : Loc) (src : List Char) : String × String :=
   let out := s!"(concat {locSexp c}) (lmc {locSexp (leftMainConcat l r)}) (stream {locSexp (stream [l, r])}) (render-l {okStr (render lines l)}) (render-c {okStr (render lines c)})"
   let v :=
     if inside lines l && !(render lines l).isOk then "viol:inside-location-crashes-renderer"
-    else if inside lines l && inside lines r && ordered l r && !(inside lines c && (render lines c).isOk) then "viol:concat-not-inside"
+    else if inside lines l && inside lines r && orderedAny l r && !(inside lines c && (render lines c).isOk) then "viol:concat-not-inside"
     else "ok"
   (out, v)
 
